@@ -51,7 +51,24 @@ OTHER = {"C06-D": "C11",     # template field lost over dump / reload: C11's sta
          "C09-O": "C02",     # unknown-template request "makes room" with two blocking channel operations (C02 storm)
          "C10-O": "C04",     # shard size cap that also blocks re-announcements: needs 131 000 templates (C04's long-running stage)
          "C10-P": "C04",     # v9 "no chains" lookup returns another exporter's template (C04: NeverForeign)
-         "C17-P": "C15"}     # v9 listens on a random port for an IPv6 bind address (Lifecycle.tla runs in C15)
+         "C17-P": "C15",     # v9 listens on a random port for an IPv6 bind address (Lifecycle.tla runs in C15)
+         # round 9
+         "C03-Q": "C04",     # template withdrawal deletes the entry and leaves a hole in the probe chain (C04: colliding triple)
+         "C03-R": "C11",     # a cache file holding a withdrawn (empty) template is refused as a whole (C11)
+         "C04-Q": "C15",     # v9 Dump skipped when no NEW pair was learnt: a redefinition is not saved (C15 redefine-only cycle; C11 too)
+         "C04-R": "C11",     # valid() refuses entries filed one slot further (colliding pairs) (C11)
+         "C05-Q": "C14",     # raw-socket producer sends only the tail of a message after a partial write (C14)
+         "C06-Q": "C05",     # v9 JSON header through int: wrong on a 32-bit build (C05's GOARCH=386 stage)
+         "C06-R": "C12",     # v9 worker returns the datagram buffer before encoding (C12)
+         "C07-Q": "C13",     # sticky decoder error in a reused sFlow decoder: later datagrams dropped (C13)
+         "C07-R": "C18",     # a filtered sample shortens the sample loop (C18)
+         "C10-Q": "C04",     # owns() compares To4() forms: IPv6 exporters with colliding keys share templates (C04)
+         "C13-R": "C16",     # mirror copy returned to the pool at datagram length when the mirror queue is full (C16)
+         "C17-R": "C15",     # Prometheus statistics ignore stats-http-addr (Lifecycle stage in C15)
+         "C18-Q": "C13"}     # the sFlow worker decodes a second time without the filter (C13: accounting)
+# known not to be detected (DESIGN.md section 9 says why)
+MISSED = {"C02-Q",           # double hashing with a stride that is 0 for one address in 2^32: the driver calls getShard, whose signature changes (exit 2)
+          "C18-R"}           # filter sets cached by the FNV-32 sum of the list: needs two lists that collide, in one process
 # judged outside the properties (see DESIGN.md section 9): not expected to be detected
 OUTSIDE = {"C17-E"}
 
@@ -76,7 +93,7 @@ def one(name):
         with open("/tmp/seedreg-out/%s.log" % name, "w") as fh:
             fh.write(p.stdout)
         first = next((l.strip() for l in p.stdout.split("\n") if "violation:" in l or "INFRA" in l.upper()), "")
-        return name, prop, p.returncode, ("(judged outside the property) " if name in OUTSIDE else "") + first[:200]
+        return name, prop, p.returncode, ("(judged outside the property) " if name in OUTSIDE else "(known miss) " if name in MISSED else "") + first[:200]
     finally:
         with GIT:
             subprocess.call(["git", "-C", "/repo", "worktree", "remove", "--force", wt])
